@@ -14,5 +14,5 @@ Extraction "model.ml"
   vinit vstep vrun bus_step bus_run
   configure configure_if_needed send_pages load_next_page show_loaded_page shut_down create_page sign_width sign_height
   run_script run_bus run_cops_script chunks16
-  frame_read frame_write serial_process serial_run serial_trace write_gaps odk_process odk_step_replied wire_step run_wire wire_step_s run_wire_s
+  frame_read frame_write serial_process serial_run serial_trace write_gaps odk_process odk_step_replied odk_run wire_step run_wire wire_step_s run_wire_s
   configure_port serial_bus_try_new odk_try_new.
